@@ -92,6 +92,81 @@ func MemPrMp(v map[string]int) int {
 	return -1
 }
 
+// Integer-valued non-comparable kinds: classes 1 and 2 collide under goderive's 17/31 hash
+// ([]int{1, 0} and []int{0, 31} both hash to 17*31*31 + 31), class 3 does not.
+type P2 struct{ A, B int }
+
+func pair(k int) (int, int) {
+	switch k {
+	case 1:
+		return 1, 0
+	case 2:
+		return 0, 31
+	case 3:
+		return 2, 7
+	}
+	return k, -1
+}
+func unpair(a, b int) int {
+	for k := 1; k <= 3; k++ {
+		if x, y := pair(k); x == a && y == b {
+			return k
+		}
+	}
+	return -1
+}
+
+var (
+	memIsl [4][3][]int
+	memIp2 [4][3]*P2
+	memSp2 [4][3][]P2
+	memMpi [4][3]map[int]int
+)
+
+func init() {
+	for k := 1; k <= 3; k++ {
+		a, b := pair(k)
+		for r := 1; r <= 2; r++ {
+			memIsl[k][r] = []int{a, b}
+			memIp2[k][r] = &P2{a, b}
+			memSp2[k][r] = []P2{{a, b}}
+			memMpi[k][r] = map[int]int{a: b}
+		}
+	}
+}
+
+func MemMkIsl(k, rep int) []int       { return memIsl[k][rep] }
+func MemMkIp2(k, rep int) *P2         { return memIp2[k][rep] }
+func MemMkSp2(k, rep int) []P2        { return memSp2[k][rep] }
+func MemMkMpi(k, rep int) map[int]int { return memMpi[k][rep] }
+func MemPrIsl(v []int) int {
+	if len(v) != 2 {
+		return -1
+	}
+	return unpair(v[0], v[1])
+}
+func MemPrIp2(v *P2) int {
+	if v == nil {
+		return 0
+	}
+	return unpair(v.A, v.B)
+}
+func MemPrSp2(v []P2) int {
+	if len(v) != 1 {
+		return -1
+	}
+	return unpair(v[0].A, v[0].B)
+}
+func MemPrMpi(v map[int]int) int {
+	if len(v) != 1 {
+		return -1
+	}
+	for a, b := range v {
+		return unpair(a, b)
+	}
+	return -1
+}
+
 // ---- call log of the instrumented user functions ----
 type Call struct {
 	F    int
